@@ -34,6 +34,9 @@ class T:
     def emit(self):
         out = ["#[cglue_trait]"]
         if self.int_result:
+            # a documented trait: the marker is not the first attribute
+            out.append("/// Integer-coded results for every Result-returning entry.")
+            out.append("#[allow(clippy::all)]")
             out.append("#[int_result]")
         out.append("pub trait %s {" % self.name)
         out += [m.sig() for m in self.methods]
